@@ -38,6 +38,8 @@ type Scenario struct {
 	Corrupt   int // number of corrupted copies of captured datagrams injected (C06)
 	Garbage   int // number of random / mutated datagrams injected (C05)
 	CloseMid  bool // close everything in the middle of the transfer instead of after completion (C15)
+	ForgeRec  bool // C05: an on-path adversary drops one data packet of every fourth FEC group and alters the group's first parity packet so
+	// that the packet the receiver RECONSTRUCTS carries a boundary value in its size prefix (no cipher)
 	RateLimit int  // bytes per second handed to SetRateLimit on both sessions (0: none): the post-processing goroutine lags behind
 }
 
@@ -88,7 +90,11 @@ func runTransfer(t *testing.T, sc Scenario, sum *summary, tf *vh.TraceFile) {
 		var gotCli, gotSrv atomic.Int64 // bytes read by the client / the server
 		var phase atomic.Int32 // 0 normal, 1 paused/ctl-loss, 2 outage, 3 healed (no more faults)
 		frng := rand.New(rand.NewSource(sc.Seed ^ 0x5bd1e995))
+		forger := newRecoveryForger(sc)
 		e.Hub.SetPolicy(func(d *simnet.Dgram) simnet.Fate {
+			if f, handled := forger.fate(d); handled {
+				return f
+			}
 			ph := phase.Load()
 			if sc.Clean {
 				return simnet.Fate{Delays: []time.Duration{time.Duration(sc.FixedDelay) * time.Millisecond}, Ordered: true}
@@ -308,6 +314,14 @@ func runTransfer(t *testing.T, sc Scenario, sum *summary, tf *vh.TraceFile) {
 					mtuLeft--
 					hs := s.VerifHeaderSize()
 					m := []int{hs + 24, hs + 25, hs + 50, 300, 576, 1000, 1400, 1500, 1600, 100000, -5, 0}[rng.Intn(12)]
+					if rng.Intn(3) == 0 {
+						// a little below / above the MTU in force (less than, exactly, more than an AEAD tag or a header away)
+						cur := mssOf(s) + 24 + hs
+						if c, _ := Crypt(sc.Cfg.Cipher); c != nil && sc.Cfg.Cipher == "aes-gcm" {
+							cur += 16
+						}
+						m = cur + []int{-1, -8, -15, -16, -17, -24, -40, 1, 16}[rng.Intn(9)]
+					}
 					w.Mon.BeginSetMtu(myAddr, peerAddr, m)
 					ok := s.SetMtu(m)
 					if ok {
@@ -435,7 +449,9 @@ func runTransfer(t *testing.T, sc Scenario, sum *summary, tf *vh.TraceFile) {
 		snmpEnd := kcp.DefaultSnmp.Copy()
 		w.Ev(map[string]any{"ev": "end", "complete": done, "wire_prefix": wirePrefix, "wire_content_ok": wireContent, "wire_consistent": wok,
 			"written": sc.Bytes, "chunks_cli": chunks["cli"], "chunks_srv": chunks["srv"],
-			"retrans": int(snmpEnd.RetransSegs - snmpClean.RetransSegs), "wire_resent": w.Mon.Resent() - resentClean})
+			"retrans": int(snmpEnd.RetransSegs - snmpClean.RetransSegs), "wire_resent": w.Mon.Resent() - resentClean,
+			"forged_recoveries": forger.attacks, "fec_recovered": int(snmpEnd.FECRecovered - snmp0.FECRecovered), "fec_errs": int(snmpEnd.FECErrs - snmp0.FECErrs),
+			"kcp_in_errors": int(snmpEnd.KCPInErrors - snmp0.KCPInErrors)})
 		chunkMu.Unlock()
 		if sc.CloseMid && sc.Seed%2 == 0 {
 			// the transports start failing writes a little before everything is closed: the sessions keep queueing output that can
@@ -478,6 +494,15 @@ func runTransfer(t *testing.T, sc Scenario, sum *summary, tf *vh.TraceFile) {
 		cconn.Close()
 		if sc.CloseMid {
 			wg.Wait()
+		}
+		// out-of-band sends on closed sessions (refused or dropped; their buffers must be recycled exactly once)
+		if sc.Cfg.D > 0 {
+			for i := 0; i < 6; i++ {
+				cli.SendOOB([]byte("late"))
+				if srv != nil {
+					srv.SendOOB([]byte("late"))
+				}
+			}
 		}
 		// second Close reports an error; Write after Close fails
 		err2 := cli.Close()
@@ -758,4 +783,18 @@ func effRcvWnd(settled *map[string]bool, name string, st kcp.VerifKCPState) int 
 		return wnd
 	}
 	return 32
+}
+
+// TestSessForgedRecovery (C05): see recoveryForger.
+func TestSessForgedRecovery(t *testing.T) {
+	scenarioBatch(t, "sess_forgedrec", func(r int, rng *rand.Rand, sc *Scenario) {
+		sc.ForgeRec = true
+		sc.Cfg.Cipher = "nil"
+		f := [][2]int{{2, 1}, {3, 1}, {3, 2}, {10, 3}, {1, 1}, {5, 2}}[r%6]
+		sc.Cfg.D, sc.Cfg.P = f[0], f[1]
+		sc.PeerFEC = [2]int{0, 0}
+		sc.LossPct, sc.DupPct, sc.MaxDelay, sc.Outage, sc.PauseMs, sc.CloseMid, sc.MtuEvents, sc.OOB = []int{0, 3}[rng.Intn(2)], 0, 0, 0, 0, false, 0, 0
+		sc.Bytes = 30000 + rng.Intn(60000)
+		sc.BackBytes = 0
+	})
 }
